@@ -104,6 +104,19 @@ impl Matcher {
         // Preprocess: sort and merge same-day transactions
         let transactions = self.preprocess(transactions);
 
+        // A share reorganisation must have a positive ratio: zero or negative ratios make the
+        // 30-day look-ahead divide by zero or turn holdings negative.
+        for tx in &transactions {
+            if let Operation::Split { ratio } | Operation::Unsplit { ratio } = &tx.operation
+                && *ratio <= Decimal::ZERO
+            {
+                return Err(CgtError::InvalidTransaction(format!(
+                    "SPLIT/UNSPLIT {} on {}: ratio must be positive, got {}",
+                    tx.ticker, tx.date, ratio
+                )));
+            }
+        }
+
         let cost_offsets = self.compute_cost_offsets(&transactions)?;
         let mut future_consumption: HashMap<usize, Decimal> = HashMap::new();
         let mut same_day_reservations: HashMap<(NaiveDate, String), Decimal> = HashMap::new();
